@@ -214,17 +214,27 @@ func (f *formatter) FormatSchema(schema *ast.Schema) {
 			f.IncrementIndent()
 		}
 	}
-	if schema.Query != nil && schema.Query.Name != "Query" {
+	// Once any root differs from the type carrying the default name, loading the
+	// output no longer infers roots by name: every root has to be spelled out,
+	// or a default-named root would be lost and a default-named non-root type
+	// would become one.
+	explicit := false
+	for name, root := range map[string]*ast.Definition{"Query": schema.Query, "Mutation": schema.Mutation, "Subscription": schema.Subscription} {
+		if named := schema.Types[name]; (root != nil && root.Name != name) || (named != nil && named != root) {
+			explicit = true
+		}
+	}
+	if schema.Query != nil && explicit {
 		startSchema()
 		f.WriteWord("query").NoPadding().WriteString(":").NeedPadding()
 		f.WriteWord(schema.Query.Name).WriteNewline()
 	}
-	if schema.Mutation != nil && schema.Mutation.Name != "Mutation" {
+	if schema.Mutation != nil && explicit {
 		startSchema()
 		f.WriteWord("mutation").NoPadding().WriteString(":").NeedPadding()
 		f.WriteWord(schema.Mutation.Name).WriteNewline()
 	}
-	if schema.Subscription != nil && schema.Subscription.Name != "Subscription" {
+	if schema.Subscription != nil && explicit {
 		startSchema()
 		f.WriteWord("subscription").NoPadding().WriteString(":").NeedPadding()
 		f.WriteWord(schema.Subscription.Name).WriteNewline()
